@@ -335,6 +335,32 @@ def correspondence(pid, tier, seed, ev, violations, replay_case=None):
                     violations.append({"kind": "special-exploration", "failing_input": True, "detail": fl["what"], "input": fl.get("input")})
             else:
                 violations.append({"kind": "harness-crash", "detail": out2[-3000:], "failing_input": False})
+    if PROPS[pid].get("race_extra") and rc == 0 and not replay_case:
+        # the concurrent part of the exploration again, in a binary built with the race detector
+        rcb, outb = build_harness(race=True)
+        if rcb != 0:
+            violations.append({"kind": "harness-build", "failing_input": False, "broken": "harness does not build with -race", "detail": outb[-2000:]})
+        else:
+            rundir3 = rundir + "_race"
+            shutil.rmtree(rundir3, ignore_errors=True)
+            os.makedirs(rundir3)
+            env3 = dict(GOENV, GORACE="halt_on_error=0 log_path=%s" % os.path.join(rundir3, "race"))
+            env3[PROPS[pid]["race_extra"]] = "1"
+            rc3, out3 = sh([os.path.join(BUILD, "hx_race"), "-prop", pid, "-tier", tier, "-seed", str(seed), "-out", rundir3], env=env3, timeout=3600)
+            reports3 = []
+            for f in sorted(glob.glob(os.path.join(rundir3, "race.*"))):
+                reports3 += [r for r in open(f).read().split("==================") if "DATA RACE" in r]
+            in_ice3 = [r for r in reports3 if "blugelabs/ice" in r]
+            ev["coverage"]["race_detector_run"] = {"reports": len(reports3), "reports_inside_ice": len(in_ice3)}
+            for r in in_ice3[:3]:
+                violations.append({"kind": "data-race", "failing_input": True, "detail": r.strip()[:4000],
+                                   "input": {"seed": seed, "tier": tier, "note": "schedule dependent: re-run the check with the same seed"}})
+            if rc3 != 0:
+                violations.append({"kind": "harness-crash", "detail": out3[-3000:], "failing_input": False})
+            else:
+                sp3 = (json.load(open(os.path.join(rundir3, "stats.json"))).get("special") or {})
+                for fl in (sp3.get("failures") or []):
+                    violations.append({"kind": "special-exploration", "failing_input": True, "detail": fl["what"], "input": fl.get("input")})
     if race:
         reports = []
         for f in sorted(glob.glob(os.path.join(rundir, "race.*"))):
